@@ -112,6 +112,13 @@ Theorem C15_mp_equals_sp : forall (V : Type) (f : Z -> V) (d : V) c nw sched,
 Proof. intros V. exact (@mp_equals_sp V). Qed.
 Print Assumptions C15_mp_equals_sp.
 
+(* ... and the completed result writes are exactly the handed-out slices, each written once (a permutation) *)
+Theorem C15_writes_exactly_once : forall c nw sched,
+  wf c -> (1 <= nw)%nat -> workers_below nw sched -> all_done nw (run c sched) ->
+  Permutation (slices (run c sched)) (wdone (run c sched)).
+Proof. exact writes_exactly_once. Qed.
+Print Assumptions C15_writes_exactly_once.
+
 (* consequence for fair schedules, end to end *)
 Theorem C15_fair_run_equals_single_process : forall (V : Type) (f : Z -> V) (d : V) c nw sched,
   wf c -> (1 <= nw)%nat -> workers_below nw sched ->
